@@ -265,3 +265,48 @@ fn c02_cast_contracts() {
     assert!((z as usize) as u8 == z);
     kani::cover!(x == 0xFFFF);
 }
+
+/// O13.1k [bounded: arrays of length 0..=3; EVERY index in the integer range] the same contract as the Verus
+/// unit c13_arrays (O13.1), checked on the real functions whatever their syntactic form: element `norm(i)` is
+/// read / replaced when 0 <= norm(i) < len, IndexError otherwise, and no other element changes.
+macro_rules! array_bounded {
+    ($name:ident, $n:expr) => {
+        #[kani::proof]
+        #[kani::unwind(6)]
+        #[kani::stub(std::fmt::format, fmt_stub)]
+        #[kani::stub(GC::trace, trace_contract)]
+        fn $name() { array_get_set_contract($n); }
+    };
+}
+array_bounded!(c13_array_bounded_0, 0);
+array_bounded!(c13_array_bounded_1, 1);
+array_bounded!(c13_array_bounded_2, 2);
+array_bounded!(c13_array_bounded_3, 3);
+fn array_get_set_contract(n: usize) {
+    let mut gc = new_gc();
+    let e = [any_immediate(), any_immediate(), any_immediate()];
+    let v = any_immediate();
+    let mut elems = Vec::with_capacity(4);
+    if n >= 1 { elems.push(e[0]); }
+    if n >= 2 { elems.push(e[1]); }
+    if n >= 3 { elems.push(e[2]); }
+    let mut a = Object::array(elems, &mut gc);
+    let i = any_int();
+    kani::cover!(i == -(n as isize));
+    kani::cover!(i == -(n as isize) - 1);
+    let norm = if i < 0 { i + n as isize } else { i };
+    let inside = norm >= 0 && norm < n as isize;
+    // read
+    let r = keep(index_get_array(a, i));
+    if inside { assert!(matches!(&*r, Ok(x) if word(*x) == word(e[norm as usize]))); } else { assert!(matches!(&*r, Err(Error::IndexError(_)))); }
+    // write
+    let w = keep(index_set_array(a.as_vec_mut(), i, v));
+    if inside { assert!(w.is_ok()); } else { assert!(matches!(&*w, Err(Error::IndexError(_)))); }
+    assert!(a.as_vec().len() == n);
+    let mut k = 0;
+    while k < n {
+        let want = if inside && k == norm as usize { v } else { e[k] };
+        assert!(word(a.as_vec()[k]) == word(want));
+        k += 1;
+    }
+}
